@@ -212,7 +212,7 @@ fn valid_cell(l: &Layout, f: usize, i: u32, write: bool) -> bool {
 
 fn valid_value(l: &Layout, f: usize, v: u128) -> bool {
     let fd = &l.fields[f];
-    if v > mask(fd.width()) {
+    if v > mask(fd.value_width()) {
         return false;
     }
     match fd.legal_values() {
